@@ -152,6 +152,35 @@ def check(prog, run):
                           file, lines.get(name))
     # init_cdb partition over all 256 opcode values
     check_init_cdb(prog, run)
+    # the values above are those at import time: the one place the library itself touches the tables afterwards is the
+    # facade's attach; it may select a table, never write one
+    from .c16 import table_mutations_on_attach
+    from ..facade_eval import SCSI_MOD
+    npaths, muts = table_mutations_on_attach(prog)
+    initf = prog.func(SCSI_MOD, "SCSI", "__init__")
+    if not muts:
+        run.ok("tables-keep-their-values", "SCSI attach, 32 device types", {"paths": npaths, "writes": 0})
+    for dt, e, snap in muts:
+        what = e.get("origin") or ("%s.%s" % (e.get("cls") or e.get("module"), e.get("name")))
+        bad = []
+        seen = {}
+        for sname, tab in snap.items():
+            for k, v in tab.items():
+                if k in ref.OPCODES and v != ref.OPCODES[k]:
+                    bad.append("%s.%s = %r, T10 assigns %#04x" % (sname, k, v, ref.OPCODES[k]))
+                if k in seen and seen[k][1] != v:
+                    bad.append("%s.%s = %r but %s.%s = %r" % (sname, k, v, seen[k][0], k, seen[k][1]))
+                seen.setdefault(k, (sname, v))
+        if set(snap) != set(SETS):
+            bad.append("tables %s are gone" % sorted(set(SETS) - set(snap)))
+        if bad:
+            run.violation("tables-keep-their-values", "attach writes %s" % what,
+                          "attaching a facade to a device of type %#04x writes %s (%s); afterwards %s -- in this and every other facade "
+                          "of the process" % (dt, what, e.get("where"), "; ".join(bad[:4])),
+                          prog.rel(prog.cls(SCSI_MOD, "SCSI").module), initf.node.lineno, initf.qualname)
+        else:
+            run.ok("tables-keep-their-values", "attach to type %#04x writes %s" % (dt, what), {"after": "all values still as T10 assigns"})
+    run.require(npaths >= 32, "anchor-missing", "SCSI attach paths")
     run.count("modules", len(prog.modules))
     run.count("tables", len(SETS))
     run.count("entries", n_entries)
@@ -199,6 +228,50 @@ def check_init_cdb(prog, run):
                 run.ok("cdb-length-group", construct, {"opcode": v, "length": got}, nontrivial=True)
             else:
                 bad.append((v, desc, "%d-byte CDB" % want))
+    # the same partition must hold when commands are *built* in sequence: a command with opcode v built right after a
+    # command of the same class with a valid opcode, and a second attempt after a refusal
+    tur = prog.cls("pyscsi.pyscsi.scsi_cdb_testunitready", "TestUnitReady")
+    inq = prog.cls("pyscsi.pyscsi.scsi_cdb_inquiry", "Inquiry")
+    seqbad = []
+    for v in range(256):
+        def thunk2(v=v):
+            ok_op = I.instantiate(opcls, ["TEST_UNIT_READY", 0x00, {}], {}, None, _F())
+            I.instantiate(tur, [ok_op], {}, None, _F())
+            op = I.instantiate(opcls, ["X", v, {}], {}, None, _F())
+            outs = []
+            for attempt in range(2):
+                try:
+                    c = I.instantiate(tur, [op], {}, None, _F())
+                    cdb = c.attrs.get("_cdb")
+                    outs.append(len(cdb.cells) if isinstance(cdb, Buf) and cdb.cells is not None else "?")
+                except PyRaise as e:
+                    ec = e.exc_class()
+                    outs.append("raise:" + (ec.name if ec else "?"))
+            # and after a command of another class
+            I.instantiate(inq, [I.instantiate(opcls, ["INQUIRY", 0x12, {}], {}, None, _F())], {}, None, _F())
+            for attempt in range(2):
+                try:
+                    c = I.instantiate(tur, [op], {}, None, _F())
+                    cdb = c.attrs.get("_cdb")
+                    outs.append(len(cdb.cells) if isinstance(cdb, Buf) and cdb.cells is not None else "?")
+                except PyRaise as e:
+                    ec = e.exc_class()
+                    outs.append("raise:" + (ec.name if ec else "?"))
+            return outs
+        res = I.explore(thunk2, max_paths=4)
+        want = ref.cdb_length(v)
+        wanted = want if want is not None else "raise:" + exc_name
+        outs = res[0].value if res and res[0].returned else ["?"]
+        if all(o == wanted for o in outs) and len(res) == 1:
+            run.ok("cdb-length-group-in-sequence", "command with opcode %#04x built after other commands" % v, nontrivial=True)
+        else:
+            seqbad.append((v, outs, wanted))
+    if seqbad:
+        v, outs, wanted = seqbad[0]
+        run.violation("cdb-length-group-in-sequence", "commands built in sequence",
+                      "%d opcode values: e.g. a command with opcode %#04x built after other commands (twice, then twice more after an INQUIRY) "
+                      "gives %s; SAM requires %s every time" % (len(seqbad), v, outs, wanted), file, f.node.lineno, f.qualname,
+                      facts={"first": [(hex(a), b, c) for a, b, c in seqbad[:6]]})
     # report contiguous ranges as one violation each, keyed by the range
     i = 0
     while i < len(bad):
